@@ -28,7 +28,7 @@ macro "attr_loop_step" : tactic => `(tactic|
    intro ⟨i, b, s⟩ ⟨h0, hl⟩
    dsimp only at h0 hl
    obtain ⟨n, rfl⟩ : ∃ n : Nat, i = n := ⟨i.toNat, by omega⟩
-   simp only [StepOK, pure, Except.pure, Int.toNat_natCast]
+   simp only [StepOK, pure, Except.pure, Int.toNat_natCast, len_eq]
    by_cases hn : n < as.length
    · obtain ⟨c, rest, hd⟩ : ∃ c rest, as.drop n = c :: rest := by
        cases hdn : as.drop n with
@@ -77,5 +77,94 @@ theorem Json_WithAttrs_eq(fuel : Nat) (h : H) (as : List Attr) (hf : depthList a
     · attr_loop_step
     · simp
     · simp; omega
+
+/- one symbolic iteration of the loop `for i := 0; i < h.nOpenGroups; i++ { buf = append(buf, '}') }`,
+   state `(buf, i)`; refers to the variable `nOpen : Nat` of the goal -/
+set_option hygiene false in
+macro "close_loop_step" : tactic => `(tactic|
+  (
+   intro ⟨b, i⟩ ⟨h0, hl⟩
+   dsimp only at h0 hl
+   obtain ⟨n, rfl⟩ : ∃ n : Nat, i = n := ⟨i.toNat, by omega⟩
+   simp only [StepOK, pure, Except.pure]
+   by_cases hn : n < nOpen
+   · have hn' : ((n : Int) < (nOpen : Int)) := by omega
+     have e1 : ((nOpen : Int) - (n : Int)).toNat = ((nOpen : Int) - ((n : Int) + 1)).toNat + 1 := by omega
+     simp only [hn', decide_true]
+     refine ⟨⟨by omega, by omega⟩, by omega, ?_⟩
+     rw [e1, List.replicate_succ]
+     simp
+   · have hn' : ¬ ((n : Int) < (nOpen : Int)) := by omega
+     have e1 : ((nOpen : Int) - (n : Int)).toNat = 0 := by omega
+     have e2 : (n : Int) = (nOpen : Int) := by omega
+     simp [hn', e1, e2]))
+
+theorem Json_Handle_exact (fuel : Nat) (addSource : Bool) (h : H) (r : Rec) (lineNo : Int)
+    (hline : r.line = Glb.Go.Lib.itoa lineNo) (hf : depthList r.attrs ≤ fuel)
+    (hlevel : -2 ≤ r.level) :
+    (Glb.Tr.Logger.Json_Handle fuel [] addSource h.pre (h.nOpenGroups : Int) h.addSep r.time
+        r.level r.file lineNo r.msg r.attrs).map (·.1)
+      = handle addSource h r := by
+  obtain ⟨pre, nOpen, addSep⟩ := h
+  obtain ⟨time, level, file, line, msg, as⟩ := r
+  dsimp only at hline hf hlevel ⊢
+  subst hline
+  unfold Glb.Tr.Logger.Json_Handle
+  dsimp only
+  rw [Glb.Tie.TrJson.appendFullLevel_exact _ _ hlevel]
+  unfold handle
+  dsimp only
+  cases hlv : fullLevel level with
+  | error e => simp [Except.map, bind, Except.bind]
+  | ok lvl =>
+    have hch : ∀ c ∈ as, depth c ≤ fuel := fun c hc => Nat.le_trans (depth_mem as c hc) hf
+    have hp0 : decide (len ([] : Bytes) > 0) = false := by simp
+    have hp1 : ∀ (x : UInt8) (xs : Bytes), decide (len (x :: xs) > 0) = true := by
+      intro x xs; simp
+    have ha0 : decide (len ([] : List Attr) > 0) = false := by simp
+    have ha1 : as ≠ [] → decide (len as > 0) = true := by
+      intro hne
+      cases as with
+      | nil => exact absurd rfl hne
+      | cons x xs => simp
+    by_cases has : as = []
+    · subst has
+      cases addSource <;> cases pre <;>
+      ( simp only [Except.map, bind, Except.bind, pure, Except.pure, hp0, hp1, ha0,
+          Glb.Tie.TrJson.appendJsonSource_eq, Glb.Tie.TrJsonString.appendJsonString_eq,
+          Bool.false_eq_true, if_false, if_true]
+        rw [loop_eq (σ := Bytes × Int) (ρ := Bytes × Unit)
+          (Inv := fun st => 0 ≤ st.2 ∧ st.2 ≤ nOpen)
+          (measure := fun st => ((nOpen : Int) - st.2).toNat)
+          (model := fun st => .ok (.inl (st.1 ++ List.replicate ((nOpen : Int) - st.2).toNat 125,
+            (nOpen : Int))))]
+        · simp [attrLoop]
+        · close_loop_step
+        · simp
+        · simp; omega )
+    · have ha1' := ha1 has
+      cases addSource <;> cases pre <;>
+      ( simp only [Except.map, bind, Except.bind, pure, Except.pure, hp0, hp1, ha1',
+          Glb.Tie.TrJson.appendJsonSource_eq, Glb.Tie.TrJsonString.appendJsonString_eq,
+          Bool.false_eq_true, if_false, if_true]
+        rw [loop_eq (σ := Int × Bytes × Bool) (ρ := Bytes × Unit)
+          (Inv := fun st => 0 ≤ st.1 ∧ st.1 ≤ as.length)
+          (measure := fun st => ((as.length : Int) - st.1).toNat)
+          (model := fun st => .ok (.inl ((as.length : Int),
+            (attrLoop st.2.1 (as.drop st.1.toNat) st.2.2 false).1,
+            (attrLoop st.2.1 (as.drop st.1.toNat) st.2.2 false).2.1)))]
+        · dsimp only
+          rw [loop_eq (σ := Bytes × Int) (ρ := Bytes × Unit)
+            (Inv := fun st => 0 ≤ st.2 ∧ st.2 ≤ nOpen)
+            (measure := fun st => ((nOpen : Int) - st.2).toNat)
+            (model := fun st => .ok (.inl (st.1 ++ List.replicate ((nOpen : Int) - st.2).toNat 125,
+              (nOpen : Int))))]
+          · simp
+          · close_loop_step
+          · simp
+          · simp; omega
+        · attr_loop_step
+        · simp
+        · simp; omega )
 
 end Glb.Tie.TrJsonHandler
